@@ -34,7 +34,7 @@ def requested_edits(uas):
 
 
 REMOVALS = ('RemoveRecord', 'BulkRemoveRecord', 'RemoveTable', 'RemoveColumn', 'RemoveView',
-            'RemoveViewSection')
+            'RemoveViewSection', 'ReplaceTableData')    # (ReplaceTableData drops the rows it does not name)
 
 BULK = {'AddRecord': 'BulkAddRecord', 'UpdateRecord': 'BulkUpdateRecord',
         'RemoveRecord': 'BulkRemoveRecord'}
